@@ -37,6 +37,7 @@ is_5322_local (const char *start, const char *end)
     int ch;
     int qpair = 0;
     int quote = 0;
+    int qend = 0; /* previous character closed a quoted-string */
 
 
     if (start == end)
@@ -46,6 +47,10 @@ is_5322_local (const char *start, const char *end)
         if (ch > 127)
             return inverse(EEAV_LPART_NOT_ASCII);
         if (!quote) {
+            /* a quoted-string is a whole word: only '.' may follow it */
+            if (qend && ch != '.')
+                return inverse(EEAV_LPART_MISPLACED_QUOTE);
+            qend = 0;
             /* rfc5322 allows next CTRLs in qtext:
              *    %d1-8 / %d11 / %d12 / %d14-31 / %d127
              * in quoted-pairs:
@@ -81,7 +86,7 @@ is_5322_local (const char *start, const char *end)
             qpair = 0;
         else {
             switch (ch) {
-            case '"':   quote = 0; break;
+            case '"':   quote = 0; qend = 1; break;
             case '\\':  qpair = 1; break;
             /* the next chars are not allowed in qtext: */
             /* 1) they must be in quoted-pair(s). */
